@@ -16,7 +16,8 @@ R34c  handler accounting.  (i) every ``except SQLFluffSkipFile`` handler and
       reviewed NOT_LINT_PATH table) either increments — unconditionally, at
       the top level of its body — a counter attribute that ``lint_paths``
       copies to ``LintingResult.files_skipped``, or re-raises.  (ii) no skip
-      can escape ``Linter.lint_paths`` (may-raise fixpoint over
+      can escape the drivers ``Linter.lint_paths`` / ``lint_string_wrapped`` /
+      ``parse_path`` (may-raise fixpoint over
       src/sqlfluff/core/linter with the loader's raise and the templater entry
       calls as sources; a call is protected by an enclosing ``try`` whose
       handler catches SQLFluffSkipFile or one of its bases).  (iii) a *broad*
@@ -34,7 +35,8 @@ R34d  every function under src/sqlfluff/cli that calls ``lint_paths``: each
       whose body raises the exit variable to at least EXIT_FAIL.
 R34e  after a skip nothing is produced for the file: from the body of a skip
       handler/arm no ``yield`` / ``return <value>`` of the same function is
-      reachable without first returning to the head of the enclosing file loop.
+      reachable without first returning to the head of the enclosing file loop
+      (returning an accumulator object created before the skip is not a product).
 """
 
 from __future__ import annotations
@@ -53,6 +55,9 @@ RESULT = "src/sqlfluff/core/linter/linting_result.py"
 ENTRY_METHODS = ("process", "process_with_variants")
 SKIP = "SQLFluffSkipFile"
 BUILTIN_BASES = {"RuntimeError": "Exception", "Exception": "BaseException", "BaseException": None}
+
+# drivers out of which no skip may escape (ii)
+DRIVERS = ("Linter.lint_paths", "Linter.lint_string_wrapped", "Linter.parse_path")
 
 # handlers of SQLFluffSkipFile that are not on the lint/fix path: construct -> reason
 NOT_LINT_PATH = {
@@ -310,6 +315,8 @@ def _top_level_effect(body: List[ast.stmt], pred) -> Optional[ast.stmt]:
 
 def _is_increment(s: ast.stmt, counters: Set[str]) -> bool:
     if isinstance(s, ast.AugAssign) and isinstance(s.op, ast.Add) and isinstance(s.target, ast.Attribute) and const(s.value) == 1:
+        if s.target.attr == "files_skipped":  # directly on a LintingResult
+            return True
         return s.target.attr in counters and isinstance(s.target.value, ast.Name) and s.target.value.id == "self"
     if isinstance(s, ast.Assign) and len(s.targets) == 1 and isinstance(s.targets[0], ast.Attribute) and isinstance(s.value, ast.BinOp) and isinstance(s.value.op, ast.Add):
         t = s.targets[0]
@@ -513,8 +520,6 @@ def _escape_analysis(chk, repo, sites, bases, counts) -> None:
     chk.count("R34c.skip_sources", sum(len(sources(f)) for f in fns))
     chk.floor("R34c.functions_analysed", 60)
     chk.floor("R34c.skip_sources", 1)
-    LP = repo.fn(LINTER, "Linter.lint_paths")
-
     def chain(f, depth=0) -> str:
         node, desc = may[f]
         nxt = None
@@ -526,12 +531,16 @@ def _escape_analysis(chk, repo, sites, bases, counts) -> None:
         s = getattr(f, "_qualname", f.name)
         return s + (" -> " + chain(nxt, depth + 1) if nxt is not None and depth < 8 else f" -> {desc}")
 
-    if LP in may:
-        chk.fail("R34c", may[LP][0],
-                 f"a SQLFluffSkipFile can escape lint_paths uncaught and uncounted (the run crashes instead of skipping): {chain(LP)}",
-                 detail="skip escapes lint_paths: " + chain(LP))
-    else:
-        chk.ok("R34c", qual(LP), "no skip escapes lint_paths")
+    # public drivers of the linter: files (lint/fix), stdin (lint/fix), parse
+    for rq in DRIVERS:
+        R = repo.fn(LINTER, rq)
+        chk.count("R34c.driver_roots")
+        if R in may:
+            chk.fail("R34c", may[R][0],
+                     f"a SQLFluffSkipFile can escape {rq} uncaught and uncounted (the run crashes instead of skipping): {chain(R)}",
+                     detail=f"skip escapes {rq.split('.')[-1]}: " + chain(R))
+        else:
+            chk.ok("R34c", qual(R), f"no skip escapes {rq}")
     # (iii) broad absorbers in core/linter
     arms_attrs = {s.subject.attr for s in sites if s.kind == "arm" and isinstance(s.subject, ast.Attribute)}
     n_b = 0
@@ -780,6 +789,11 @@ def _r34e(chk, repo, sites: List[Site]) -> None:
                 st = cfg.stmt_of(x)
             elif isinstance(x, ast.Return) and x.value is not None and not (isinstance(x.value, ast.Constant) and x.value.value is None):
                 st = x
+                # returning an accumulator that already existed before the skip is not a product of the skipped file
+                if isinstance(x.value, ast.Name):
+                    os_ = origins(cfg, x.value, x)
+                    if os_ and all(o.stmt is not None and o.kind == "expr" and cfg.dominates(o.stmt, start) for o in os_):
+                        st = None
             if st is None:
                 continue
             if st is start or in_block(st, s.body):
